@@ -526,7 +526,10 @@ func vC08GenTags(r *vRng, small bool) (hv, ha int, tags []vSx, wireLen int, nCal
 			n = r.rng(2, 40)
 		}
 		if !small && r.chance(1, 3) {
-			n = r.pickInt(4095, 4096, 4097, 65535, 65536, 70000)
+			n = r.pickInt(4095, 4096, 4097, 5000)
+			if r.chance(1, 5) {
+				n = r.pickInt(65535, 65536, 70000)
+			}
 		}
 		ts := int64(r.intn(100000))
 		if r.chance(1, 4) {
@@ -566,6 +569,66 @@ func vC08GenSegs(r *vRng) vSx {
 		}
 		return vLs(s)
 	}
+}
+
+
+// number of offsets a sweep over a wire of wl bytes may use: the cost of one run is ~ wl
+// (implementation and model re-read the delivered prefix), so a sweep is given a byte budget
+func vC08Budget(k *vKit, wl int, scale int) int {
+	b := 200000
+	if k.thorough() {
+		b = 1500000
+	}
+	n := b * scale / (wl + 1)
+	if n < 8 {
+		n = 8
+	}
+	return n
+}
+
+// all offsets 0..wl when the budget allows, else the marked offsets +-2 first, then random ones
+func vC08PickKs(k *vKit, wl int, marks []int, scale int) vSx {
+	budget := vC08Budget(k, wl, scale)
+	if wl+1 <= budget {
+		return vL(vZ(0), vZ(0), vI(wl))
+	}
+	set := []vSx{vZ(1)}
+	seen := map[int]bool{}
+	add := func(x int) {
+		if x >= 0 && x <= wl && !seen[x] && len(set) <= budget {
+			seen[x] = true
+			set = append(set, vI(x))
+		}
+	}
+	for _, d := range []int{0, -1, 1, -2, 2} {
+		for _, m := range marks {
+			if len(set) <= budget*3/4 {
+				add(m + d)
+			}
+		}
+	}
+	for tries := 0; len(set) <= budget && tries < 4*budget; tries++ {
+		add(k.rnd.intn(wl + 1))
+	}
+	return vLs(set)
+}
+
+// keep at most lim (>= 4) of the collected offsets: the first and last quarter and random ones between
+func vC08Thin(k *vKit, set []vSx, lim int) []vSx {
+	if lim < 4 {
+		lim = 4
+	}
+	if len(set)-1 <= lim {
+		return set
+	}
+	q := lim / 4
+	keep := []vSx{set[0]}
+	keep = append(keep, set[1:1+q]...)
+	for j := 0; j < lim-2*q; j++ {
+		keep = append(keep, set[1+q+k.rnd.intn(len(set)-1-2*q)])
+	}
+	keep = append(keep, set[len(set)-q:]...)
+	return keep
 }
 
 func vC08TermRead(r *vRng) int { return r.pickInt(0, 0, 0, 1, 2, 4) }
@@ -626,42 +689,25 @@ func TestVerifC08Flv(t *testing.T) {
 			runOne(vL(vZ(2), vZ(0), vI(hv), vI(ha), vLs(tags), vI(vC08TermRead(k.rnd)), vI(k.rnd.intn(2)), vC08GenSegs(k.rnd), vL(vZ(0), vZ(0), vI(wl))), false)
 		}
 	}
-	// larger files: thorough = every offset, quick = item boundaries +-2 and random offsets
-	nLarge := k.N(12, 40)
+	// larger files: every offset when the byte budget allows, else item boundaries +-2 and random offsets
+	nLarge := k.N(10, 60)
 	for i := 0; i < nLarge; i++ {
 		hv, ha, tags, wl, _ := vC08GenTags(k.rnd, false)
-		ks := vL(vZ(0), vZ(0), vI(wl))
-		if !k.thorough() {
-			set := []vSx{vZ(1)}
-			off := 13
-			add := func(x int) {
-				for d := -2; d <= 2; d++ {
-					if x+d >= 0 && x+d <= wl {
-						set = append(set, vI(x+d))
-					}
-				}
-			}
-			add(0)
-			add(off)
-			for _, tg := range tags {
-				b, _ := vC08Body(tg.l[2])
-				off += 11
-				add(off)
-				off += len(b) + 4
-				add(off - 4)
-				add(off)
-			}
-			for j := 0; j < 30; j++ {
-				set = append(set, vI(k.rnd.intn(wl+1)))
-			}
-			ks = vLs(set)
+		marks := []int{0, 13, wl}
+		off := 13
+		for _, tg := range tags {
+			b, _ := vC08Body(tg.l[2])
+			off += 11
+			marks = append(marks, off)
+			off += len(b) + 4
+			marks = append(marks, off-4, off)
 		}
-		runOne(vL(vZ(2), vZ(0), vI(hv), vI(ha), vLs(tags), vI(vC08TermRead(k.rnd)), vI(k.rnd.intn(2)), vC08GenSegs(k.rnd), ks), false)
+		runOne(vL(vZ(2), vZ(0), vI(hv), vI(ha), vLs(tags), vI(vC08TermRead(k.rnd)), vI(k.rnd.intn(2)), vC08GenSegs(k.rnd), vC08PickKs(k, wl, marks, 1)), false)
 	}
 	// error at every Read call index: record where the calls of a fault-free run start
 	nIdx := k.N(30, 300)
 	for i := 0; i < nIdx; i++ {
-		hv, ha, tags, _, _ := vC08GenTags(k.rnd, i%2 == 0)
+		hv, ha, tags, wl, _ := vC08GenTags(k.rnd, i%2 == 0)
 		segs := vC08GenSegs(k.rnd)
 		probe := vL(vZ(2), vZ(0), vI(hv), vI(ha), vLs(tags), vZ(0), vZ(0), segs, vL(vZ(1)))
 		starts := vC08ReadStarts(probe)
@@ -673,16 +719,7 @@ func TestVerifC08Flv(t *testing.T) {
 				last = s
 			}
 		}
-		// long call sequences (1-byte reads of a 64K body): quick keeps the first and last 40 and 60 random ones
-		if lim := k.N(140, 3000); len(set)-1 > lim {
-			keep := []vSx{vZ(1)}
-			keep = append(keep, set[1:41]...)
-			for j := 0; j < lim-80; j++ {
-				keep = append(keep, set[41+k.rnd.intn(len(set)-81)])
-			}
-			keep = append(keep, set[len(set)-40:]...)
-			set = keep
-		}
+		set = vC08Thin(k, set, vC08Budget(k, wl, 1)/4)
 		k.hist["flv"]["read-call-indices"] += len(set) - 1
 		for _, term := range []int{1, 2, 4} {
 			runOne(vL(vZ(2), vZ(0), vI(hv), vI(ha), vLs(tags), vI(term), vI(k.rnd.intn(2)), segs, vLs(set)), false)
@@ -691,10 +728,18 @@ func TestVerifC08Flv(t *testing.T) {
 	// writes: a fault at every Write call index
 	nW := k.N(60, 1500)
 	for i := 0; i < nW; i++ {
-		hv, ha, tags, _, nc := vC08GenTags(k.rnd, i%3 != 0)
+		hv, ha, tags, wl, nc := vC08GenTags(k.rnd, i%3 != 0)
 		term := k.rnd.pickInt(0, 1, 2, 4, 4)
 		m := k.rnd.pickInt(0, 0, 1, 3, 10, 12, 1<<30)
-		runOne(vL(vZ(2), vZ(1), vI(hv), vI(ha), vLs(tags), vI(term), vI(m), vL(vZ(0), vZ(0), vI(nc))), false)
+		is := vL(vZ(0), vZ(0), vI(nc))
+		if lim := vC08Budget(k, wl, 1); nc+1 > lim {
+			set := []vSx{vZ(1)}
+			for j := 0; j <= nc; j++ {
+				set = append(set, vI(j))
+			}
+			is = vLs(vC08Thin(k, set, lim))
+		}
+		runOne(vL(vZ(2), vZ(1), vI(hv), vI(ha), vLs(tags), vI(term), vI(m), is), false)
 	}
 }
 
